@@ -103,8 +103,8 @@ func genDScript(r *rng, pf dProfile, id string, cnt counters, emit func(line, ou
 	nops := r.rangeIn(3, pf.maxOps)
 	for k := 0; k < nops && !e.dead; k++ {
 		B, W := e.buf.BufferSize, e.buf.WindowSize
-		if B > 1<<16 {
-			B = 1 << 16
+		if B > 256 {
+			B, W = 256, min(W, 128) // default (8 MiB) geometry: keep the data small
 		}
 		room := B - W
 		free := B - len(e.buf.Data)
